@@ -1,4 +1,4 @@
-From Urwid Require Import TermRef DrawScreen.
+From Urwid Require Import TermRef DrawScreen HtmlGen.
 From Coq Require Extraction ExtrOcamlBasic.
 Extraction Language OCaml.
 Extraction "model.ml" run_case.
